@@ -91,6 +91,7 @@ def run(ctx, rep):
         x = [f.const_of(i.ops[1]) & 0xffffffff for i in f.all_insts() if i.op == 'xor' and f.const_of(i.ops[1]) is not None]
         rep.check(x == [0xffffffff, 0xffffffff], 'R-C16-3', '%s: IV and final xor 0xffffffff' % name, f.file, str([hex(v) for v in x]), function=name, construct='iv')
     C02.check_mode_order(ctx, rep, 'R-C16-5')
+    C02.mode_selection_rule(ctx, rep, 'R-C16-5m')
     # R-C16-4 hash schedule
     rep.rule('R-C16-4', 'hash schedule (multiply/add/xor magic constants, rotation amounts, at -O1) equals the reference schedule', 3)
     rep.rule('R-C16-4g', 'hash multiplier globals are never written', 1)
